@@ -1008,6 +1008,7 @@ class Folder:
                         sub = Folder(symbolic=True, max_steps=20000)
                         sub.overrides = getattr(self, "overrides", None)
                         sub.fold_all_methods = self.fold_all_methods
+                        sub.decider = self.decider
                         sub.func_stack = list(self.func_stack) + [t.node]
                         r = sub.call(t.node, args, kw)
                         self.trace.extend(sub.trace)
@@ -1035,6 +1036,7 @@ class Folder:
                         sub = Folder(symbolic=True, max_steps=20000)
                         sub.overrides = getattr(self, "overrides", None)
                         sub.fold_all_methods = self.fold_all_methods
+                        sub.decider = self.decider
                         sub.func_stack = list(self.func_stack) + [t.node]
                         try:
                             r = sub.call(t.node, args, kw)
@@ -1058,6 +1060,7 @@ class Folder:
                             sub = Folder(symbolic=True, max_steps=20000)
                             sub.overrides = getattr(self, "overrides", None)
                             sub.fold_all_methods = self.fold_all_methods
+                            sub.decider = self.decider
                             sub.func_stack = list(self.func_stack)
                             r = sub.call(t.node, [recv] + args, kw)
                             self.trace.extend(sub.trace)
